@@ -292,6 +292,10 @@ def build_c(unit, units, outdir, defines=()):
             if fw not in parts:
                 parts.append(fw)
     parts.append(types.typedefs())
+    for sname, members in shared['selfs'].items():
+        if sname == '_noself' or sname in records.values():
+            continue
+        parts.append('typedef struct %s {\n%s\n} %s;' % (sname, '\n'.join('\t%s %s;' % (ct, m) for m, ct in members.items()), sname))
     shim_ghosts = []
     for vn, el in types.vecs.items():
         parts.append('VEC_SHIMS(%s, %s)' % (vn, el))
@@ -305,10 +309,6 @@ def build_c(unit, units, outdir, defines=()):
             shim_ghosts.append(('size_t', 'gh_f_' + vn))
         if any(re.search(r'\b%s_sort_(asc|desc)\s*\(' % re.escape(vn), rendered[n]['body'] or '') for n in allu):
             parts.append('VEC_SHIMS_SORT(%s, %s)' % (vn, el))
-    for sname, members in shared['selfs'].items():
-        if sname == '_noself' or sname in records.values():
-            continue
-        parts.append('typedef struct %s {\n%s\n} %s;' % (sname, '\n'.join('\t%s %s;' % (ct, m) for m, ct in members.items()), sname))
     seen_pl = set()
     for n in allu:
         pl = units[n]['sections'].get('prelude', '')
